@@ -249,6 +249,16 @@ def rule_round(prog: Program, modules: Set[str]) -> List[Instance]:
                 if isinstance(a, ast.BinOp) and isinstance(a.op, (ast.Add, ast.Sub)) and (const_num(a.right) == 0.5 or const_num(a.left) == 0.5):
                     out.append(Instance("R-ROUND", f"{fi.qual}#round:trunc-as-nearest:{short(n, 40)}", BAD,
                                         f"`{short(n)}` rounds by truncating towards zero: negative values come out one too high (-17.0 -> -16)", fi.where(n)))
+            # abs(ceil(E)) / abs(floor(E)): the rounding direction is that of E's sign, abs() afterwards turns
+            # "up" into "towards zero" for negative E
+            if isinstance(n, ast.Call) and isinstance(n.func, ast.Name) and n.func.id == "abs" and len(n.args) == 1:
+                a = n.args[0]
+                if isinstance(a, ast.Call) and call_name(a) in ("ceil", "floor") and a.args and not (isinstance(a.args[0], ast.Call) and call_name(a.args[0]) == "abs"):
+                    inner = a.args[0]
+                    signed = any(isinstance(x, (ast.Name, ast.Attribute)) for x in ast.walk(inner)) and not any(isinstance(x, ast.Call) and call_name(x) == "abs" for x in ast.walk(inner))
+                    if signed:
+                        out.append(Instance("R-ROUND", f"{fi.qual}#round:abs-after-{call_name(a)}:{short(n, 40)}", BAD,
+                                            f"`{short(n, 60)}` rounds first and takes the magnitude afterwards: for a negative argument {call_name(a)} rounds towards zero, so the magnitude comes out one short (ceil(-3.2) = -3)", fi.where(n)))
         sites = find_sites(fi)
         counter: Dict[str, int] = {}
         for s in sites:
@@ -279,6 +289,19 @@ def rule_round(prog: Program, modules: Set[str]) -> List[Instance]:
             if s.kind in NEAREST or s.kind == "round":
                 out.append(Instance("R-ROUND", cid, BAD, f"`{short(s.node, 60)}` rounds to nearest but feeds a {role} ({how}): a partially covered pixel can be lost", where))
                 continue
+            # floor(x + c) / ceil(x - c) with 0 < c < 1 shifts the bound inwards before rounding (round-to-nearest
+            # in disguise for c = 0.5): a pixel covered by less than c is dropped
+            if s.kind in ("floor", "ceil") and isinstance(s.node, ast.Call) and s.node.args:
+                a0 = s.node.args[0]
+                if isinstance(a0, ast.BinOp) and isinstance(a0.op, (ast.Add, ast.Sub)):
+                    c = const_num(a0.right)
+                    if c is not None and 0 < abs(c) < 1:
+                        shift = c if isinstance(a0.op, ast.Add) else -c
+                        inward = (s.kind == "floor" and shift > 0) or (s.kind == "ceil" and shift < 0)
+                        if inward:
+                            out.append(Instance("R-ROUND", cid, BAD,
+                                                f"`{short(s.node, 60)}` shifts the {role} bound inwards by {abs(c):g} before rounding (round-to-nearest in disguise): a pixel covered by less than that is lost", where))
+                            continue
             down = s.kind in DOWN
             if role == "LOWER":
                 ok = down
